@@ -8,7 +8,7 @@ inductive St where
   | imapCmd        -- handleClient: a command line is awaited                 (30 min)
   | imapLiteral    -- APPEND: the announced literal octets are awaited          (5 min)
   | imapAuthWait   -- AUTHENTICATE PLAIN: "+ " sent, the response is awaited    (30 s)
-  | imapIdle       -- IDLE: polling for DONE                                    (50 ms polls, no overall limit)
+  | imapIdle       -- IDLE: polling for DONE                                    (50 ms polls; logged off after 30 min)
   | lmtpCmd        -- Session.Handle: a command line is awaited                 (configured timeout, default 300 s)
   | lmtpData       -- DATA: message lines are awaited                           (same timeout, per line)
   | saslCmd        -- sasl handleConnection: a request line is awaited          (30 s)
@@ -21,12 +21,12 @@ inductive Fail where
   | deadline     -- the read deadline passed
 deriving DecidableEq, Repr
 
-/-- the read deadline set before the wait, in milliseconds (`none`: the state has no limit of its own) -/
+/-- the read deadline set before the wait, in milliseconds (inside IDLE: the poll's) -/
 def deadlineMs (lmtpTimeoutS : Nat) : St → Option Nat
   | .imapCmd => some (30 * 60 * 1000)
   | .imapLiteral => some (5 * 60 * 1000)
   | .imapAuthWait => some (30 * 1000)
-  | .imapIdle => none
+  | .imapIdle => some 50
   | .lmtpCmd => some (lmtpTimeoutS * 1000)
   | .lmtpData => some (lmtpTimeoutS * 1000)
   | .saslCmd => some (30 * 1000)
@@ -46,9 +46,40 @@ def fail : St → Fail → St
   | .saslCmd, _ => .closed
   | .closed, _ => .closed
 
+/-- `IdleTimeout`: how long a client may stay silent inside IDLE, in milliseconds -/
+def idleLimitMs : Nat := 30 * 60 * 1000
+/-- one round of the IDLE loop without client bytes: 500 ms sleep, the mailbox poll, a read with a 50 ms deadline -/
+def idleRoundMs : Nat := 550
+
+/-- what a silent client's session does at its next wait; the second component counts the milliseconds spent inside IDLE and
+`d` is how long one round of the IDLE loop takes. At the head of each round the loop compares the time spent with the limit:
+past it the client is told BYE and the connection is closed. Everywhere else the wait ends with its read deadline. -/
+def silentStep (d : Nat) : St × Nat → St × Nat
+  | (.imapIdle, e) => if e ≥ idleLimitMs then (.closed, e) else (.imapIdle, e + d)
+  | (s, e) => (fail s .deadline, e)
+
+def silentRun (d : Nat) : Nat → St × Nat → St × Nat
+  | 0, x => x
+  | n + 1, x => silentRun d n (silentStep d x)
+
+/-- the IDLE loop of a silent client, round by round: `k` rounds of `d` ms from `e` ms -/
+theorem idle_rounds (d : Nat) : ∀ (k e : Nat), e + k * d < idleLimitMs + d → k * d ≤ idleLimitMs + d →
+    (∀ j < k, e + j * d < idleLimitMs) → silentRun d k (.imapIdle, e) = (.imapIdle, e + k * d)
+  | 0, e, _, _, _ => by simp [silentRun]
+  | k + 1, e, h1, h2, h3 => by
+    have h0 : ¬ e ≥ idleLimitMs := by have := h3 0 (by omega); omega
+    simp only [silentRun, silentStep, h0, if_false]
+    rw [idle_rounds d k (e + d)]
+    · congr 1; rw [Nat.succ_mul]; omega
+    · rw [Nat.succ_mul] at h1; omega
+    · rw [Nat.succ_mul] at h2; omega
+    · intro j hj
+      have := h3 (j + 1) (by omega)
+      rw [Nat.succ_mul] at this; omega
+
 /-- the wait, in milliseconds, until a silent client's session has ended (`none`: never) -/
 def silenceBound (t : Nat) : St → Option Nat
-  | .imapIdle => none
+  | .imapIdle => some (idleLimitMs + idleRoundMs)
   | .closed => some 0
   | s =>
     match deadlineMs t s, deadlineMs t (fail s .deadline) with
